@@ -9,6 +9,7 @@ ROOT = os.path.dirname(os.path.dirname(os.path.abspath(__file__)))
 BUILD = os.path.join(ROOT, "build")
 EVIDENCE = os.path.join(ROOT, "evidence")
 FINDINGS = os.path.join(ROOT, "known_findings.json")
+REPO = os.environ.get("VERIF_REPO", "/repo")
 MAX_REPORTED = 5     # VIOLATION lines printed per site; all are counted
 
 
